@@ -810,6 +810,14 @@ func (c *wsConn) handleWsConn(ctx context.Context) {
 		case rerr := <-c.readError:
 			action = "read-error"
 
+			// mark the connection as unusable, like nextMessage does when it
+			// fails, so that requests arriving before the redial completes fail
+			// immediately instead of being written to the dead connection and
+			// waiting for a response which can never come
+			c.errLk.Lock()
+			c.incomingErr = rerr
+			c.errLk.Unlock()
+
 			log.Debugw("websocket error", "error", rerr, "lastAction", action, "time", time.Since(start))
 			if !c.tryReconnect(ctx) {
 				return // failed to reconnect
